@@ -12,7 +12,7 @@ import (
 func init() {
 	register(&Prop{
 		ID:          "C01",
-		Explanation: "Decides the control-flow skeleton of 'served only if credential or bypass': every protected sink (load of the upstream handler, the 202 writer of the auth-only endpoint, every success write of the user-info endpoint) is reached only on paths where getAuthenticatedSession returned a nil error; every nil-error return of getAuthenticatedSession has the bypass predicate true or (session non-nil, e-mail empty or validated, Authorize true); IsAllowedRequest is true only through preflight&&OPTIONS, isAllowedRoute or isTrustedIP and is called only from getAuthenticatedSession; RequestScope.Session is written only by the three session loaders and only with result #0 of their verified getter; each getter returns non-nil only after its verification call succeeded; cookie-store Load and ticket decoding succeed only behind encryption.Validate ok, which needs checkSignature true, which needs hmac.Equal; the route table wraps every session-consuming handler in sessionChain. Added during the build: the skip-auth decision consumes only the guarded, query-free request path (R9, shared with C15.R1); the trusted-IP set inserts into the same-mask map it looks up and the htpasswd validator answers true only by comparing against the entry it read (R10, shared with C15.R5 / C20.R2). Round 3: issuer verification of bearer-token verifiers is switched off only by the operator's option (R11); without a header parser the client address is net.ParseIP(SplitHostPort(req.RemoteAddr)#0) and nothing else (R12). Round 4: a bearer token verifies only with go-oidc's verdict and the audience membership check on the first configured audience claim present (R13, shared with C04.R1); a Basic credential is split at its first colon only (R14). Round 7: request handling keeps no state of its own between requests — no store, map update, in-place builtin, atomic/sync.Map write or pointer-receiver library call (singleflight, caches) reached from ServeHTTP targets a package-level variable, an object built at start-up, or a constructor variable captured by the handler it returned, declared in the packages implementing this property (RS; a class-wide who-may-write rule with zero instances today: a correct memoisation would be reported until reviewed). A refresh that adopts the new ID token adopts its e-mail, user, groups and preferred user name on the same path (R15, shared with C12.R9).",
+		Explanation: "Decides the control-flow skeleton of 'served only if credential or bypass': every protected sink (load of the upstream handler, the 202 writer of the auth-only endpoint, every success write of the user-info endpoint) is reached only on paths where getAuthenticatedSession returned a nil error; every nil-error return of getAuthenticatedSession has the bypass predicate true or (session non-nil, e-mail empty or validated, Authorize true); IsAllowedRequest is true only through preflight&&OPTIONS, isAllowedRoute or isTrustedIP and is called only from getAuthenticatedSession; RequestScope.Session is written only by the three session loaders and only with result #0 of their verified getter; each getter returns non-nil only after its verification call succeeded; cookie-store Load and ticket decoding succeed only behind encryption.Validate ok, which needs checkSignature true, which needs hmac.Equal; the route table wraps every session-consuming handler in sessionChain. Added during the build: the skip-auth decision consumes only the guarded, query-free request path (R9, shared with C15.R1); the trusted-IP set inserts into the same-mask map it looks up and the htpasswd validator answers true only by comparing against the entry it read (R10, shared with C15.R5 / C20.R2). Round 3: issuer verification of bearer-token verifiers is switched off only by the operator's option (R11); without a header parser the client address is net.ParseIP(SplitHostPort(req.RemoteAddr)#0) and nothing else (R12). Round 4: a bearer token verifies only with go-oidc's verdict and the audience membership check on the first configured audience claim present (R13, shared with C04.R1); a Basic credential is split at its first colon only (R14). Round 7: request handling keeps no state of its own between requests — no store, map update, in-place builtin, atomic/sync.Map write or pointer-receiver library call (singleflight, caches) reached from ServeHTTP targets a package-level variable, an object built at start-up, or a constructor variable captured by the handler it returned, declared in the packages implementing this property (RS; a class-wide who-may-write rule with zero instances today: a correct memoisation would be reported until reviewed). A refresh that adopts the new ID token adopts its e-mail, user, groups and preferred user name on the same path (R15, shared with C12.R9). Round 8 (class-wide, P12): in the packages implementing this property every named error result that is used at all is examined — compared with nil, returned, stored or handed to a non-formatting function — unless the code validates the value result instead (RE; zero instances today).",
 		NotDecided:  "that a valid credential always verifies (values), correctness of HMAC/AES (trusted), string semantics of validators.",
 		Run:         runC01,
 	})
@@ -53,6 +53,8 @@ func isInvokeOf(c *ssa.CallCommon, ifaceQual, method string, pg *prog.Program) b
 }
 
 func runC01(c *Ctx) {
+	c.R.Rule("RE-errors-examined", "in the packages implementing this property every named error result that is used at all is examined, or the value is validated instead (P12, class-wide, round 8)", 1)
+	runErrorsExamined(c, "RE-errors-examined", "main", "pkg/middleware", "pkg/authentication")
 	c.R.Rule("RS-no-request-time-state", "request handling writes no state that outlives the request (package-level variables, objects built at start-up, constructor variables captured by handlers) declared in the packages implementing this property", 1)
 	runStateless(c, "RS-no-request-time-state", "main", "pkg/middleware", "pkg/authentication", "pkg/ip")
 	r := c.R
